@@ -2,9 +2,9 @@
 // functions with the user update U (writes constants to ctrl, qfrc_applied, xfrc_applied), and
 // (S) forwardSkip vs full forward, (P) forward purity / idempotence.  All comparisons bitwise.
 // stdin lines:
-//   E seed feat nbody integrator enableflags disableflags cbmode nsteps
+//   E seed feat nbody integrator enableflags disableflags cbmode nsteps solver cone
 //   H seed feat nbody enableflags stagename
-//   S seed feat nbody integrator enableflags skipstage
+//   S seed feat nbody integrator enableflags skipstage solver cone
 // stdout: one line per case: "OK ..." | "DIFF <fields>" | "ERR <msg>" | "UNKNOWN <stage>"
 #include "mjgen.h"
 #include "mjcmp.h"
@@ -58,11 +58,12 @@ int main(void) {
     unsigned long long seed; unsigned feat; int nb;
     if (scanf("%llu %u %d", &seed, &feat, &nb) != 3) return 2;
     if (op[0] == 'E') {
-      int integ, en, dis, cbm, nsteps;
-      if (scanf("%d %d %d %d %d", &integ, &en, &dis, &cbm, &nsteps) != 5) return 2;
+      int integ, en, dis, cbm, nsteps, solver, cone;
+      if (scanf("%d %d %d %d %d %d %d", &integ, &en, &dis, &cbm, &nsteps, &solver, &cone) != 7) return 2;
       mjModel* m = mjg_model(seed, feat, nb, NULL);
       if (!m) { printf("ERR compile\n"); continue; }
       m->opt.integrator = integ; m->opt.enableflags |= en; m->opt.disableflags |= dis;
+      m->opt.solver = solver; m->opt.cone = cone;
       mjData* a = fresh_data(m); mjData* b = fresh_data(m);
       mjg_rng r = {seed * 31 + 7}; mjg_random_state(m, a, &r, 1.0); mj_copyData(b, m, a);
       cb_mode = cbm; mjcb_control = cbm ? control_cb : NULL;
@@ -106,11 +107,12 @@ int main(void) {
       } else printf("ERR %s\n", mjg_last_error);
       mj_deleteData(a); mj_deleteData(b); mj_deleteModel(m);
     } else if (op[0] == 'S') {
-      int integ, en, skip;
-      if (scanf("%d %d %d", &integ, &en, &skip) != 3) return 2;
+      int integ, en, skip, solver, cone;
+      if (scanf("%d %d %d %d %d", &integ, &en, &skip, &solver, &cone) != 5) return 2;
       mjModel* m = mjg_model(seed, feat, nb, NULL);
       if (!m) { printf("ERR compile\n"); continue; }
       m->opt.integrator = integ; m->opt.enableflags |= en;
+      m->opt.solver = solver; m->opt.cone = cone;
       m->opt.disableflags |= mjDSBL_WARMSTART;
       mjData* a = fresh_data(m); mjData* b = fresh_data(m); mjData* c = fresh_data(m);
       mjg_rng r = {seed * 31 + 7}; mjg_random_state(m, a, &r, 1.0);
